@@ -752,6 +752,20 @@ pub fn c09_check(case: &Case, f32_run: bool, counts: &mut std::collections::BTre
         }
     }
     let base: Vec<MP> = OPS.iter().map(|&op| run(&case.a, &case.b, op, f32_run)).collect::<Result<_, _>>()?;
+    // an entry point may have a shortcut of its own: the bare-polygon pairings must agree with the result above (regions
+    // everywhere; ring sets on exact families, where both paths assemble the same rings)
+    for pairing in PAIRINGS {
+        if pairing == Pairing::MM || !pairing.applicable(&case.a, &case.b) {
+            continue;
+        }
+        *counts.entry("entry-point-comparisons".into()).or_insert(0) += 1;
+        for (oi, &op) in OPS.iter().enumerate() {
+            let r = run_any(&case.a, &case.b, op, f32_run, pairing).map_err(fail_of)?;
+            if mp_area2(&r) != mp_area2(&base[oi]) || (exact && canon_ringset(&r) != canon_ringset(&base[oi])) {
+                return Err(("shortcut".into(), format!("{} through {} differs from the result through MultiPolygon x MultiPolygon (a shortcut in one entry point?): {:?} vs {:?}", op.name(), pairing.name(), r, base[oi])));
+            }
+        }
+    }
     let hooks_before = (hit(geo_booleanop::verif::Site::TrivialResult), hit(geo_booleanop::verif::Site::SubEarlyBreak));
     for side in 0..4u64 {
         for on_subject in [true, false] {
